@@ -332,6 +332,18 @@ def check_protocol(fx, R, fa, fr):
         want = 'inverse(this.enu2ecef_'
         if not (isinstance(r, sp.Basic) and want in str(r) and 'toECEF(geodeticCoordinates.latitude, geodeticCoordinates.longitude, geodeticCoordinates.altitude)' in str(r)):
             unknown = unknown or 'result %s is not in the enumerated form enu2ecef_.inverse() * toECEF(point)' % r
+    # a path may use the stored frame (anchor / transform) only after it has established that the converter is anchored:
+    # reset() clears the flag, not the stored anchor, so an un-guarded read sees the frame of before the reset
+    for st in ps:
+        established = any(isinstance(c[1], sp.Basic) and ((c[1] == sp.Symbol('this.isAnchored_') and c[2]) or (c[1] == sp.Not(sp.Symbol('this.isAnchored_')) and not c[2]) or
+                                                        (str(c[1]) == '~this.isAnchored_' and not c[2])) for c in st.cond) or st.fields.get(('this', 'isAnchored_')) == 1
+        uses = set()
+        for e_ in [c[1] for c in st.cond if isinstance(c[1], sp.Basic)] + ([st.ret] if isinstance(st.ret, sp.Basic) else []):
+            uses |= {s_.name for s_ in e_.free_symbols if s_.name.startswith(('this.wgs84Anchor_', 'this.enu2ecef_'))}
+        if uses and not established:
+            desc = ' && '.join(('' if c[2] else '!') + '(' + c[0] + ')' for c in st.cond)
+            fact = fact or ('the path [%s] of toENU(geodetic) reads the stored frame (%s) without having established that the converter is anchored: reset() clears the flag but keeps the old anchor, so after '
+                            'anchor(A); reset() this path answers in the frame of A instead of anchoring on the point (which must map to the origin)' % (desc, sorted(uses)))
     calls_anchor = any(x.get('k') == 'MCall' and x.get('m') == 'setAnchor' for x in walk(fg[0]['body']))
     if not seen_unanchored:
         if not calls_anchor:
